@@ -65,9 +65,33 @@ impl ConstantFoldingRule {
                             return Ok(Some(input_changed.unwrap_or(filter.input)));
                         }
                         FoldedPredicate::AlwaysFalse => {
-                            return Ok(Some(arena.alloc(LogicalOperator::Values(
-                                crate::sql::planner::LogicalValues { rows: &[] },
-                            ))));
+                            // An empty `Values` node cannot be turned into a physical
+                            // plan for a SELECT ("failed to create query plan"); keep the
+                            // filter and reduce its predicate to the literal FALSE.
+                            if matches!(
+                                filter.predicate,
+                                crate::sql::ast::Expr::Literal(
+                                    crate::sql::ast::Literal::Boolean(false)
+                                )
+                            ) {
+                                if let Some(new_input) = input_changed {
+                                    let new_filter = crate::sql::planner::LogicalFilter {
+                                        input: new_input,
+                                        predicate: filter.predicate,
+                                    };
+                                    return Ok(Some(
+                                        arena.alloc(LogicalOperator::Filter(new_filter)),
+                                    ));
+                                }
+                                return Ok(None);
+                            }
+                            let new_filter = crate::sql::planner::LogicalFilter {
+                                input: input_changed.unwrap_or(filter.input),
+                                predicate: arena.alloc(crate::sql::ast::Expr::Literal(
+                                    crate::sql::ast::Literal::Boolean(false),
+                                )),
+                            };
+                            return Ok(Some(arena.alloc(LogicalOperator::Filter(new_filter))));
                         }
                         FoldedPredicate::Simplified(new_pred) => {
                             let new_filter = crate::sql::planner::LogicalFilter {
